@@ -40,7 +40,7 @@ def _register():
         _registered = True
 
 
-HDR_VALUES = ['abc', 42, 2.5, '', 'multi  blank   text', 'semi;colon x']
+HDR_VALUES = ['abc', 42, 2.5, '', 'multi  blank   text', 'semi;colon x', 'br{}ace { } x{']
 NAMES = ['a', 'ab', 'abc', 'flux', 'MyStruct']
 REP_TABLES = [
     {'cols': [['flux', 'i4'], ['c1', 'f8']], 'rows': [[2147483647, 1.0 / 3.0], [-1, float('-inf')]]},
